@@ -321,6 +321,43 @@ def check_grid_case(ctx: Ctx, c: Dict[str, Any]) -> None:
         shape[D - 1 - i] = n[i]
         if not torch.equal(idx[..., i].to(torch.int64), ar.reshape(shape).expand(idx.shape[:-1])):
             ctx.violation(dict(op="Grid.coords", what="indices", **sig0), "coords(normalize=False) are not the integer indices", c)
+    from deepali.core.grid import Grid
+
+    # anchors: the middle index is the center, index zero is the origin() the grid reports, and a grid rebuilt from that origin is the same grid;
+    # also for the same geometry with ONE sample along an axis (where (n - 1) / 2 = 0: origin and center coincide along that axis)
+    cen = torch.tensor(fl(F(c["g"]["c"])), dtype=torch.float64)
+    hs = fl(F(c["g"]["h"]))
+    variants = [("as is", g, list(n))]
+    for k_ in range(D):
+        n1 = [1 if i == k_ else m for i, m in enumerate(n)]
+        if n1 != list(n):
+            variants.append((f"one sample along axis {k_}", Grid(size=tuple(n1), spacing=g.spacing(), center=g.center(), direction=g.direction(), align_corners=g.align_corners()), n1))
+    variants.append(("one sample", Grid(size=(1,) * D, spacing=g.spacing(), center=g.center(), direction=g.direction(), align_corners=g.align_corners()), [1] * D))
+    for vname, gv, nv in variants:
+        try:
+            mid = torch.tensor([(m - 1) / 2 for m in nv], dtype=torch.float64)
+            tolc = bound(max(1.0, float(cen.abs().max()), max(float(a_ * b_) for a_, b_ in zip(nv, hs))), F32)
+            sigv = dict(size1=min(nv) == 1, variant=vname if vname == "as is" else "singleton", **sig0)
+            if max_err(gv.index_to_world(mid.float()), cen) > tolc:
+                ctx.violation(dict(op="Grid.index_to_world", what="center", **sigv), f"[{vname}, size {nv}] index (n-1)/2 = {mid.tolist()} maps to {gv.index_to_world(mid.float()).tolist()}, the center is {cen.tolist()}", c)
+            if max_err(gv.world_to_index(cen.float(), decimals=None), mid) > tolc:
+                ctx.violation(dict(op="Grid.world_to_index", what="center", **sigv), f"[{vname}, size {nv}] the center maps to index {gv.world_to_index(cen.float(), decimals=None).tolist()}, expected {mid.tolist()}", c)
+            o0 = gv.index_to_world(torch.zeros(D))
+            if max_err(gv.origin(), o0) > tolc:
+                ctx.violation(dict(op="Grid.origin", what="index0", **sigv), f"[{vname}, size {nv}] origin() is {gv.origin().tolist()} but index 0 lies at {o0.tolist()}", c)
+            # origin = center - R diag(h) (n - 1) / 2, written out
+            o_exp = cen - (gv.direction().double() @ (torch.tensor(hs, dtype=torch.float64) * mid))
+            if max_err(gv.origin(), o_exp) > tolc:
+                ctx.violation(dict(op="Grid.origin", what="value", **sigv), f"[{vname}, size {nv}] origin() is {gv.origin().tolist()}, center - R h (n-1)/2 = {o_exp.tolist()}", c)
+            g_o = Grid(size=tuple(nv), origin=gv.origin(), spacing=gv.spacing(), direction=gv.direction(), align_corners=gv.align_corners())
+            if max_err(g_o.center(), cen) > tolc:
+                ctx.violation(dict(op="Grid(origin=)", what="roundtrip", **sigv), f"[{vname}, size {nv}] a grid rebuilt from origin() has center {g_o.center().tolist()}, expected {cen.tolist()}", c)
+            if max_err(gv.cube().center(), cen) > tolc or max_err(gv.domain().center(), cen) > tolc:
+                ctx.violation(dict(op="Grid.cube", what="center", **sigv), f"[{vname}] the cube / domain of the grid is not centred at the grid's center", c)
+            if max_err(gv.world_to_cube(cen.float(), align_corners=False, decimals=None), torch.zeros(D)) > 1e-5:
+                ctx.violation(dict(op="Grid.world_to_cube", what="center", **sigv), f"[{vname}, size {nv}] the center does not map to the middle of the cube", c)
+        except Exception as ex:
+            ctx.violation(dict(op="Grid.origin", exc=type(ex).__name__, variant=vname, **sig0), f"[{vname}] anchor checks raised {type(ex).__name__}: {str(ex)[:100]}", c)
     # equality of grids / cubes: equal to a copy built from the same attributes, different from every grid that differs in one attribute
     # (the harnesses of C03..C05, C10 and C19 rely on Grid.__eq__ to compare grids)
     from deepali.core.cube import Cube
